@@ -37,6 +37,18 @@ def run(ctx):
     # (a recorder that died leaves a truncated trace: the coverage invariant does not apply to it)
     ctx.validate_all("Trace_Geometry", trace, key_of, cfg="Trace_Geometry_rest.cfg" if d else None, group_start="__each__", max_rejections=12, rest_cfg="Trace_Geometry_rest.cfg",
                      what_of=lambda ex, bad: "rejected by spec/Trace_Geometry.tla: %s" % json.dumps(bad)[:300])
+    # ---- beyond the listed properties: Angle, Normalize, Normalized (note level)
+    atrace = os.path.join(ctx.work, "aux.ndjson")
+    rc, o, err = vf.run_exe([exe, "aux", str(ctx.seed), ctx.tier, atrace], timeout=1500)
+    if rc != 0 or any(l.startswith("VERIF-DIED") for l in err.splitlines()):
+        ctx.drift("Angle/Normalize (no listed property): the recorder ended early: %s" % err[-300:])
+    else:
+        ok, consumed, total = ctx.validate("Trace_Geometry", atrace, cfg="Trace_Geometry_rest.cfg")
+        if not ok:
+            al = open(atrace).read().splitlines()
+            ctx.drift("Angle/Normalize/Normalized (no listed property; spec/Trace_Geometry.tla TAux): event %d of %d rejected: %s" % (consumed + 1, total, al[min(consumed, len(al) - 1)][:250]))
+        else:
+            ctx.cov["trace_events"] += total
     lines = open(trace).read().splitlines()
     ctx.sample({"trace_event": json.loads(lines[0])})
     ctx.sample({"trace_event": json.loads(lines[-1])})
